@@ -151,6 +151,58 @@ def advancing_clock(ctx):
                     return
 
 
+def history_indices(times_ns, sds):
+    """a HISTORY of _get_protection_gke_from_cache calls on ONE cache (scripted clock and KDF): the interval each call names"""
+    import dpapi_ng._client as c
+    import dpapi_ng._gkdi as g
+    now = [0]
+
+    class T:
+        @staticmethod
+        def time_ns():
+            return now[0]
+    old_time, old_kdf = c.time, g.kdf
+    c.time = T
+    g.kdf = lambda algorithm, secret, label, context, length: b"\x00" * length
+    outs = []
+    try:
+        cache = c.KeyCache()
+        cache.load_key(b"\x01" * 64, RK)
+        for ns, sd in zip(times_ns, sds):
+            now[0] = ns
+            try:
+                env = c._get_protection_gke_from_cache(RK, sd, cache)
+                outs.append((env.l0, env.l1, env.l2))
+            except Exception as e:  # noqa
+                from check import canon_exc
+                outs.append("err " + canon_exc(e))
+        return outs
+    finally:
+        c.time, g.kdf = old_time, old_kdf
+
+
+def cache_histories(ctx):
+    """several protects answered by one cache while the clock crosses an interval boundary: every call must name the interval of
+    ITS OWN instant, whatever the cache answered before (the first tick of the next interval is the sharpest case)"""
+    Y = 1024 * B
+    k0 = EPOCH // Y + 1
+    for k in range(k0, k0 + (40 if ctx.thorough else 6)):
+        for unit in (Y, 32 * B, B):
+            kk = k * (Y // unit) + (0 if unit == Y else ctx.rng.randrange(1, Y // unit))
+            bound = kk * unit
+            for steps in ([-5, 0], [-1, 0, 1], [-unit + 1, -1, 0, unit - 1, unit], [-3, 0, -3, 0], [0, B, 2 * B, 32 * B, 33 * B], [-1, -1, 0, 0]):
+                for sds in ([b"sd"] * len(steps), [b"sd", b"other"] * len(steps)):
+                    times = [ticks_to_ns(bound + d) for d in steps]
+                    outs = history_indices(times, sds)
+                    ctx.count("cache_history:calls=%d" % len(steps))
+                    want = [oracle(bound + d) for d in steps]
+                    if outs != want:
+                        i = next(i for i in range(len(steps)) if outs[i] != want[i])
+                        ctx.violation("after earlier protects on the same cache the key identifier names another interval than the one containing the clock value",
+                                      {"history_times_ns": times, "sds": [x.decode() for x in sds[:len(steps)]], "call": i}, str(outs[i]), str(want[i]))
+                        return
+
+
 def ticks_to_ns(t):
     # smallest ns value whose FILETIME conversion is t
     return (t - EPOCH) * 100
@@ -199,6 +251,7 @@ def run(ctx):
     ctx.compare_batch(cases, nontrivial=lambda line, impl: True)
     advancing_clock(ctx)
     seeded_cache(ctx)
+    cache_histories(ctx)
 
 
 def search(ctx, broken, disagreements):
@@ -224,6 +277,12 @@ def replay(ctx, payload):
         outs = [seeded_case(i["time_ns"], tuple(i["cached_seed_position"]), e) for e in (False, True)]
         print(f"clock interval {i['clock_interval']}, cached seed at {i['cached_seed_position']}: implementation names {outs}")
         return all(o == tuple(i["clock_interval"]) for o in outs[:1])
+    if "history_times_ns" in v["input"]:
+        i = v["input"]
+        outs = history_indices(i["history_times_ns"], [x.encode() for x in i["sds"]])
+        want = [oracle(x // 100 + EPOCH) for x in i["history_times_ns"]]
+        print(f"calls on one cache at {i['history_times_ns']}: implementation {outs}, required {want}")
+        return outs == want
     if "start_time_ns" in v["input"]:
         out, shown = impl_indices_advancing(v["input"]["start_time_ns"])
         want = sorted(set(oracle(x // 100 + EPOCH) for x in shown))
